@@ -4,6 +4,15 @@
 //!                                                   "SAME <table>" | "DIFF <a> <b>"   (model: C01-style table of the cube oracle over F2)
 //!   cxh <red> ; <link>                        impl: d.d = 0 for KhIComplex over F2[H]: OK | FAIL
 //!   ssi <red> ; <link>                        impl: "K=<s0>,<s1> SH=<s0>,<s1> MIR=<s0>,<s1>"  (shuffled crossing order, mirror)
+//!   khw <red> <a> <b> ; <link>                impl: builder option h_range: SymTngBuilder::new; set_h_range(a..=b); preprocess; process_all;
+//!                                                   finalize; into_khi_complex, truncated to a+1..=b (the cone shifts Q by +1), d.d = 0 there, and the
+//!                                                   F2-dimensions of its homology in the interior degrees a+2..=b-1 for h = 0 and h = 1 against
+//!                                                   those of the unrestricted KhIComplex::new: "same=1 h0[i=d ...] h1[i=d ...]" | "same=0 ..."
+//!   khm <red> <schedule> ; <link>             impl: manual builder schedules (schedule = letters: D = auto_deloop off, E = auto_elim off,
+//!                                                   p = eliminate_all before finalize, q = eliminate_all after finalize):
+//!                                                   preprocess; process_all; [eliminate_all;] finalize; [eliminate_all;] into_khi_complex;
+//!                                                   d.d = 0 over F2 (h = 0, 1) and F2[H], and the F2-dimensions of the homology (h = 0, 1) equal to
+//!                                                   those of the automatic schedule: "same=1 h0[...] h1[...]" | "same=0 ..."
 use yui::poly::HPoly;
 use yui::{FF2};
 use yui_homology::{ChainComplexTrait, GridTrait, SummandTrait};
@@ -56,6 +65,83 @@ fn sym_case(l: &InvLink, h: i64, red: bool) -> String {
     if ta == tb { format!("SAME {}", ta) } else { format!("DIFF [{}] [{}]", ta, tb) }
 }
 
+fn dims_in<R>(c: &KhIComplex<R>, lo: isize, hi: isize) -> String
+where R: yui::EucRing, for<'x> &'x R: yui::EucRingOps<R> {
+    let hml = c.homology();
+    let mut v: Vec<(isize, usize)> = vec![];
+    for i in hml.support() { if lo <= i && i <= hi && hml[i].rank() > 0 { v.push((i, hml[i].rank())); } }
+    v.sort();
+    v.iter().map(|(i, d)| format!("{}={}", i, d)).collect::<Vec<_>>().join(" ")
+}
+
+/// builder option h_range (window a..=b), read off as the repository's own `h_range` test does
+fn khw_case(l: &InvLink, red: bool, a: isize, b: isize) -> String {
+    let z = FF2::from(0);
+    let mut out = vec![];
+    for h in [0, 1] {
+        let hh = FF2::from(h);
+        let full = dims_in(&KhIComplex::new(l, &hh, &z, red), a + 2, b - 1);
+        let win = guarded(|| {
+            let mut bld = SymTngBuilder::new(l, &hh, &z, red);
+            if !(a <= 0 && 0 <= b) {
+                // the canonical cycles live in degree 0 and cannot be tracked when that degree is outside the window
+                bld.set_elements([]);
+            }
+            bld.set_h_range(a..=b);
+            bld.preprocess();
+            bld.process_all();
+            bld.finalize();
+            let c = bld.into_khi_complex().truncated((a + 1)..=b);
+            c.check_d_all();
+            dims_in(&c, a + 2, b - 1)
+        });
+        match win {
+            None => return format!("same=0 h={} PANIC (window {}..={}; unrestricted [{}])", h, a, b, full),
+            Some(w) if w != full => return format!("same=0 h={} degrees {}..={}: window [{}] unrestricted [{}]", h, a + 2, b - 1, w, full),
+            Some(w) => out.push(format!("h{}[{}]", h, w)),
+        }
+    }
+    format!("same=1 {}", out.join(" "))
+}
+
+fn build_sched<R>(l: &InvLink, h: &R, red: bool, sched: &str) -> KhIComplex<R>
+where R: yui::Ring, for<'x> &'x R: yui::RingOps<R> {
+    let mut b = SymTngBuilder::new(l, h, &R::zero(), red);
+    if sched.contains('D') { b.auto_deloop = false; }
+    if sched.contains('E') { b.auto_elim = false; }
+    b.preprocess();
+    b.process_all();
+    if sched.contains('p') { b.eliminate_all(); }
+    b.finalize();
+    if sched.contains('q') { b.eliminate_all(); }
+    b.into_khi_complex()
+}
+
+/// manual schedules of the builder against the automatic one
+fn khm_case(l: &InvLink, red: bool, sched: &str) -> String {
+    type P = HPoly<'H', FF2>;
+    let z = FF2::from(0);
+    let mut out = vec![];
+    for h in [0, 1] {
+        let hh = FF2::from(h);
+        let auto = dims_in(&KhIComplex::new(l, &hh, &z, red), isize::MIN, isize::MAX);
+        let man = guarded(|| {
+            let c = build_sched(l, &hh, red, sched);
+            c.check_d_all();
+            dims_in(&c, isize::MIN, isize::MAX)
+        });
+        match man {
+            None => return format!("same=0 h={} PANIC (schedule {}; automatic [{}])", h, sched, auto),
+            Some(w) if w != auto => return format!("same=0 h={} schedule {} [{}] automatic [{}]", h, sched, w, auto),
+            Some(w) => out.push(format!("h{}[{}]", h, w)),
+        }
+    }
+    if guarded(|| build_sched::<P>(l, &P::variable(), red, sched).check_d_all()).is_none() {
+        return format!("same=0 h=H PANIC (schedule {}: building the complex over F2[H] or d.d = 0)", sched);
+    }
+    format!("same=1 {}", out.join(" "))
+}
+
 fn run_case(line: &str) -> String {
     let (head, link) = line.split_once(';').unwrap();
     let t: Vec<&str> = head.split_whitespace().collect();
@@ -64,6 +150,8 @@ fn run_case(line: &str) -> String {
     match t[0] {
         "khi" => khi_case(&l, t[2].parse().unwrap(), red),
         "sym" => sym_case(&l, t[2].parse().unwrap(), red),
+        "khw" => khw_case(&l, red, t[2].parse().unwrap(), t[3].parse().unwrap()),
+        "khm" => khm_case(&l, red, t[2]),
         "cxh" => {
             type P = HPoly<'H', FF2>;
             let c = KhIComplex::<P>::new(&l, &P::variable(), &num_traits::Zero::zero(), red);
@@ -123,6 +211,19 @@ fn main() {
                         if n <= 6 || thorough || r.chance(1, 3) {
                             cases.push(format!("cxh {} ; {}", red as u8, ls));
                             cases.push(format!("ssi {} ; {}", red as u8, ls));
+                        }
+                        // builder option h_range: windows sliding over the whole support hmin..=hmax of the cone
+                        let (hmin, hmax) = (-(q as isize), (n as isize) - (q as isize) + 1);
+                        let widths: Vec<isize> = std::env::var("C19_WIDTHS").ok().map(|s| s.split(',').map(|x| x.parse().unwrap()).collect())
+                            .unwrap_or(if thorough { vec![3, 4, 6] } else { vec![4] });
+                        for w in widths {
+                            for a in (hmin - 1)..=(hmax - w + 1) {
+                                cases.push(format!("khw {} {} {} ; {}", red as u8, a, a + w, ls));
+                            }
+                        }
+                        // manual schedules
+                        for sc in ["Eq", "Epq", "D", "DEq", "DEpq", "Dq", "pq"] {
+                            cases.push(format!("khm {} {} ; {}", red as u8, sc, ls));
                         }
                     }
                 }
